@@ -40,8 +40,9 @@ Record enum_st := mkEnum {
   e_vals : list (Z * Z);         (* (value handle, index): map contents *)
   e_max  : Z;                    (* maxIndex *)
   e_min  : Z;                    (* minSize *)
-  e_refs : list (Z * option Z);  (* referencing enum signals: handle, free bits after it in its
-                                    layout (None: signal has no parent message) *)
+  e_refs : list (Z * option Z);  (* referencing enum signals: handle, bits available to it in its
+                                    layout = layout size - start bit, free space behind it
+                                    included (None: signal has no parent message) *)
   e_hint : option Z }.           (* SignalEnum.parErrID, None = "" *)
 
 Record msg_st := mkMsg {
@@ -168,16 +169,15 @@ Definition size_of (v : Z) : Z :=
   if v =? 0 then 1 else if v <? 0 then 0 else Z.min 64 (Z.log2 v + 1).
 Definition enum_size (e : enum_st) : Z := Z.max (e_min e) (size_of (e_max e)).
 
-(* verifyValueIndex: the first referencing signal (iteration order) that cannot grow *)
-Fixpoint grow_scan (grow : Z) (refs : list (Z * option Z)) : option Z :=
+(* verifyValueIndex: the first referencing signal (iteration order) that cannot grow to the new
+   size (verifySignalSizeAmount -> verifyBeforeGrow: amount > space behind the signal, i.e. new
+   size > bits available) *)
+Fixpoint grow_scan (need : Z) (refs : list (Z * option Z)) : option Z :=
   match refs with
   | [] => None
-  | (sg, Some room) :: r => if room <? grow then Some sg else grow_scan grow r
-  | (_, None) :: r => grow_scan grow r
+  | (sg, Some room) :: r => if room <? need then Some sg else grow_scan need r
+  | (_, None) :: r => grow_scan need r
   end.
-
-Definition shrink_room (grow : Z) (r : Z * option Z) : Z * option Z :=
-  (fst r, match snd r with Some x => Some (x - grow) | None => None end).
 
 Definition ERR (route : list Z) : list Z := (-1) :: route.
 Definition OK : list Z := [0].
@@ -186,7 +186,7 @@ Definition OK : list Z := [0].
 Definition verify_value_index (e : enum_st) (idx : Z) : option enum_st :=
   if zmem idx (map snd (e_vals e)) then Some e
   else if e_max e <? idx then
-    match grow_scan (size_of idx - enum_size e) (e_refs e) with
+    match grow_scan (size_of idx) (e_refs e) with
     | Some sg => Some (set_ehint e (Some sg))
     | None => None
     end
@@ -264,9 +264,7 @@ Definition mstep (s : state) (op : mut_op) : state * list Z :=
                 let r := enum_errorf en in
                 (set_enums s (upd_nth e (fun _ => fst r) (enums s)), ERR (snd r))
               else
-                let grow := if e_max en <? idx then size_of idx - enum_size en else 0 in
-                let en' := set_erefs (set_evals en (e_vals en ++ [(v, idx)]) (Z.max (e_max en) idx))
-                                     (map (shrink_room grow) (e_refs en)) in
+                let en' := set_evals en (e_vals en ++ [(v, idx)]) (Z.max (e_max en) idx) in
                 (set_enums s (upd_nth e (fun _ => en') (enums s)), OK)
           end
       end
